@@ -65,6 +65,24 @@ CLAIMED.update({
                 ref='5 (C19)'),
 })
 
+CLAIMED.update({
+    'C16': dict(cat='other', tech='dominance, must-pass-through, who-may-call and must-definition rules on the CFGs of main.c, signals.c, process.c',
+                text='Decides the ordering facts that leave only the two allowed end states: the input is removed only '
+                     'after work(), metadata calls, a successful close() and the clearing of the output name; outputs are '
+                     'created exclusively and their name recorded before anything else can fail; every abnormal exit of '
+                     'the main thread passes cleanup(); sub-threads cannot reach _exit/unlink; signals are deliverable only '
+                     'inside halt() and are unblocked at start-up after the set is filled; the success signal is the '
+                     'primary thread\'s last action. Does not model the kernel or decide that work() wrote everything.',
+                ref='5 (C16)'),
+    'C17': dict(cat='other', tech='guard-cut rules over input_init/output_init/main, table comparison of suffix[], argument provenance',
+                text='Decides: each admission test (regular file, link count, compressed suffix) guards open() on every '
+                     'path not exempted by exactly the documented options, and a skipped operand warns and is never '
+                     'opened; suffix[] equals the documented map; outputs are created O_CREAT|O_EXCL with mode & 0600, '
+                     'pre-unlink only with -f; fchown/fchmod(&0777)/futimens(atime,mtime) are applied as documented, '
+                     'fchmod on every path where fchown succeeded; the input removal is guarded by exactly outmode==REGF '
+                     'and !keep. Does not decide file-system effects themselves.', ref='5 (C17)'),
+})
+
 NA = {
     'C01': 'round-trip equality is a numerical fact about RLE/BWT/MTF/Huffman and its inverse over all byte strings; '
            'no sound static argument in reach bounds it (DESIGN.md section 6); its shape-level fragments are decided '
